@@ -503,7 +503,13 @@ func GenStruct(r *Rng, pkg *Package, name string) *Struct {
 			c.allow = func(k string) bool { return jsonKinds[k] && k != "tparam" }
 			c.embOK = true
 		}
-		c.fields(nFields(r), false, false)
+		nf := nFields(r)
+		if r.Intn(6) == 0 {
+			// beyond the tuple limit: the JSON methods go through AsMutable / AsImmutable, which must carry EVERY field also when
+			// the struct is too wide for AsTuple (seed C15-8: the AsImmutable emitter clamped its field list like the tuple emitters)
+			nf = 22 + r.Intn(3)
+		}
+		c.fields(nf, false, false)
 	case "derive":
 		valueAnn()
 		pickClasses()
